@@ -232,7 +232,14 @@ func (g *gen) src(asset string, d int, ctx *srcCtx, sendAll bool, capped bool) J
 			if !c.unspecified && !c.varBounds {
 				// keep the bound non-negative: a literal non-negative number
 				b = eMon(eAsset(asset), eNum(absInt(g.num())))
-				if c.infix && r.Intn(3) == 0 {
+				if r.Intn(3) == 0 {
+					// ... or a non-negative monetary variable
+					for _, v := range g.vars {
+						if v["type"] == "monetary" && v["usable"] == true && v["val"].(J)["a"] == asset && v["val"].(J)["v"].(int) >= 0 {
+							b = eVar(v["name"].(string))
+						}
+					}
+				} else if c.infix && r.Intn(2) == 0 {
 					// ... or a sum of non-negative monetaries, a variable on the left when there is one
 					var left J = eMon(eAsset(asset), eNum(absInt(g.num())))
 					for _, v := range g.vars {
@@ -599,6 +606,8 @@ func corpusCfg(name string) genCfg {
 	case "src": // C04: rich source, plain destination
 		base.plainDst = true
 		base.worldVars = true
+		base.infix = true
+		base.deepInfix = true
 		base.sendAllRate = 3
 		base.srcDepth = 3
 		base.maxVars = 2
@@ -606,6 +615,8 @@ func corpusCfg(name string) genCfg {
 		base.nums = append([]int{-5}, baseNums...)
 	case "dst": // C05: rich destination, trivial source
 		base.worldSrcOnly = true
+		base.infix = true
+		base.deepInfix = true
 		base.sendAllRate = 5
 		base.dstDepth = 3
 		base.maxVars = 2
